@@ -769,6 +769,25 @@ def check_case(impl, scn, i, o, stats=None):
     return fails, sp, want, got
 
 
+def looked_up_keys(x):
+    """every dotted key that occurs in x as an Option's key or as a template reference (expression nodes, template tokens, S strings)"""
+    out = set()
+    if isinstance(x, S):
+        x = x.toks
+    if isinstance(x, tuple):
+        if len(x) >= 2 and x[0] in ("option", "ref") and isinstance(x[1], tuple) and x[1] and all(isinstance(s, tuple) and len(s) == 2 for s in x[1]):
+            out.add(x[1])
+        for y in x:
+            out |= looked_up_keys(y)
+    elif isinstance(x, list):
+        for y in x:
+            out |= looked_up_keys(y)
+    elif isinstance(x, dict):
+        for y in x.values():
+            out |= looked_up_keys(y)
+    return out
+
+
 def perturb_case(impl, scn, i, o, sp, got, rng, budget=6):
     """keys() is sufficient by perturbation: changing / deleting an entry unrelated to every
     reported key must not change the outcome of evaluate()"""
@@ -777,6 +796,10 @@ def perturb_case(impl, scn, i, o, sp, got, rng, budget=6):
     if ks[0] != "ok" or got[0] != "ok":
         return fails, n
     cands = [p for p in leaf_paths(o) if not any(related(p, k) for k in ks[1])]
+    # (a leaf that is a proper prefix of a key some Option / reference of the graph looks up - an empty section left on the path of an
+    #  absent dotted key - would become a scalar PARENT of that key: the zone of finding D6, which is C04's, not a C09 matter)
+    lk = looked_up_keys(scn["exprs"][i]) | looked_up_keys(scn["env"]) | looked_up_keys(o)
+    cands = [p for p in cands if not any(len(k) > len(p) and tuple(k[:len(p)]) == tuple(p) for k in lk)]
     rng.shuffle(cands)
     for p in cands[:budget]:
         for o2, how in ((put_path(o, p, S(("lit", "Z"), ("lit", "9"))), "changed"), (del_path(o, p), "deleted")):
